@@ -1,6 +1,7 @@
 package peers
 
 import (
+	"bytes"
 	"crypto/tls"
 	"encoding/base64"
 	"encoding/binary"
@@ -82,6 +83,9 @@ type UpServer struct {
 	arrivals map[string]int
 	// ConnGone is when the server noticed that a stream connection was closed by the peer.
 	ConnGone map[int]time.Duration
+	// ConnAbandoned is when the proxy closed its end of a stream connection
+	// (simulator knowledge; earlier than ConnGone by the latency of the FIN).
+	ConnAbandoned map[int]time.Duration
 	connSeq  int
 	conns    map[int]*upConn
 	ln       *vnet.TCPListener
@@ -105,7 +109,7 @@ type upConn struct {
 
 func NewUpServer(s *sim.Sim, w *vnet.World, seed uint64, spec plan.UpstreamSpec, tokens map[string]*plan.TokenSpec, pki *PKI) *UpServer {
 	return &UpServer{S: s, W: w, Seed: seed, Spec: spec, Tokens: tokens, PKI: pki,
-		serials: map[string]int{}, arrivals: map[string]int{}, conns: map[int]*upConn{}, ConnGone: map[int]time.Duration{},
+		serials: map[string]int{}, arrivals: map[string]int{}, conns: map[int]*upConn{}, ConnGone: map[int]time.Duration{}, ConnAbandoned: map[int]time.Duration{},
 		DefaultAns: plan.AnswerSpec{NAn: 1, TTLs: []uint32{300}, Shape: "plain"}}
 }
 
@@ -365,6 +369,9 @@ func (u *UpServer) serveStream(raw *vnet.StreamConn, cfg *tls.Config) {
 	u.mu.Lock()
 	delete(u.conns, uc.id)
 	u.ConnGone[uc.id] = u.S.Now()
+	if t, ok := raw.PeerClosedAt(); ok {
+		u.ConnAbandoned[uc.id] = t
+	}
 	u.mu.Unlock()
 	c.Close()
 }
@@ -566,6 +573,9 @@ func (u *UpServer) handle(b []byte, proto string, conn int, qc qctx, reply func(
 	if n := poisonRun(b); n >= 8 {
 		s.Fail("C20", "released-memory-on-the-wire", "upstream %s (%s, conn %d) received %d bytes from the proxy of which %d consecutive ones are the release/allocation poison pattern: a buffer was used after it had been released: %x", u.Spec.Tag, proto, conn, len(b), n, b[:min(len(b), 48)])
 	}
+	if PoisonObject(b) {
+		s.Fail("C20", "released-object-on-the-wire", "upstream %s (%s, conn %d) received a query built from a released pooled object (poison values): %x", u.Spec.Tag, proto, conn, b[:min(len(b), 64)])
+	}
 	if err != nil || len(m.Q) == 0 {
 		u.mu.Lock()
 		u.Queries = append(u.Queries, q)
@@ -746,6 +756,15 @@ func (u *UpServer) RepliesCopy() []UpReply {
 	defer u.mu.Unlock()
 	return append([]UpReply(nil), u.Replies...)
 }
+
+// PoisonRun is the exported form of poisonRun.
+func PoisonRun(b []byte) int { return poisonRun(b) }
+
+var poisonName = []byte("\x06poison\x05after\x07release")
+
+// PoisonObject reports whether b contains the name that the pool facade
+// writes into released pooled objects.
+func PoisonObject(b []byte) bool { return bytes.Contains(b, poisonName) }
 
 // poisonRun is the longest run of 0xDB (released) bytes in b.
 func poisonRun(b []byte) int {
